@@ -39,6 +39,21 @@ theorem relay_complete {μ : Type} (cap : Nat) (msgs : List μ) (acts : List Act
   have := run_inv (msgs := msgs) acts (start cap msgs) s (by simp [start]) h
   simpa [h1, h2] using this
 
+/-- what has been delivered is never retracted or rewritten: along every run the delivered sequence only grows at its end -/
+theorem relay_delivered_monotone {μ : Type} (acts : List Act) (s s' : St μ) (h : run s acts = some s') : s.done <+: s'.done :=
+  run_done_prefix acts s s' h
+
+/-- batching is immaterial: a poll that takes k buffered messages at once leaves exactly the state that k single
+    receives leave — for every k and every state -/
+theorem relay_poll_batching_immaterial {μ : Type} (k : Nat) (s : St μ) (h1 : 1 ≤ k) (h2 : k ≤ s.chan.length) :
+    step s (.drain k) = run s (List.replicate k .deq) :=
+  drain_eq_deqs k s h1 h2
+
+/-- runs compose: a relay observed in two stretches behaves as in one -/
+theorem relay_run_append {μ : Type} (a b : List Act) (s : St μ) :
+    run s (a ++ b) = (run s a).bind (fun s1 => run s1 b) :=
+  run_append a b s
+
 /-- the buffer never exceeds the channel capacity (10 in the code) -/
 theorem relay_bounded {μ : Type} (cap : Nat) (msgs : List μ) (acts : List Act) (s : St μ)
     (h : run (start cap msgs) acts = some s) : s.chan.length ≤ max cap 1 := by
